@@ -261,6 +261,34 @@ func main() {
 				}
 			}
 		}
+	case "paths-1x2": // the full tree x 4 includes x every ordered pair of exclude patterns from a reduced set
+		var red []string
+		for _, pt := range pats {
+			if strings.Count(pt, "/") <= 1 {
+				red = append(red, pt)
+			}
+		}
+		for _, inc := range []string{"**", "**/*.go", "d/**", "*"} {
+			for _, e1 := range red {
+				for _, e2 := range red {
+					if e1 == e2 {
+						continue
+					}
+					if do(pathCase{Tree: 63, Include: []string{inc}, Exclude: []string{e1, e2}}) {
+						goto done
+					}
+				}
+			}
+		}
+		for _, i1 := range []string{"*.go", "d/*"} {
+			for _, i2 := range []string{"**/a.go", "d/e/*", "b.txt"} {
+				for _, e1 := range append([]string{}, red[:12]...) {
+					if do(pathCase{Tree: 63, Include: []string{i1, i2}, Exclude: []string{e1}}) || do(pathCase{Tree: 63, Include: []string{i2, i1}, Exclude: []string{e1}}) {
+						goto done
+					}
+				}
+			}
+		}
 	case "paths-2x2": // thorough: the full tree, <=2 includes x <=2 excludes
 		tree := 63
 		for i, i1 := range pats {
